@@ -100,6 +100,13 @@ FAMILIES = {
               ("Gen_Pause", "Gen_Pause.cfg", "sim", {"quick": dict(num=100, depth=10, consts={"GenSet": '"full"', "PauseSet": '"full"'}, seeds=1),
                                                    "thorough": dict(num=1000, depth=20, consts={"GenSet": '"full"', "PauseSet": '"full"'}, seeds=2)})],
         replays=[dict(mode="instrauth", controls="", swap=False)]),
+    "BATCH": dict(     # batch sizes at the 100-identifier limit, all-or-nothing at the last position, overlapping batches
+        mc=("MC_Batch", "MC_Batch.cfg", {"quick": {"MaxDepth": "2"}, "thorough": {"MaxDepth": "3"}}),
+        gens=[("Gen_Batch", "Gen_Batch.cfg", "bfs", {"quick": dict(depth=2, consts={"GenSet": '"small"'}),
+                                                   "thorough": dict(depth=3, consts={"GenSet": '"small"'})}),
+              ("Gen_Batch", "Gen_Batch.cfg", "bfs", {"quick": dict(depth=1, consts={"GenSet": '"full"'}),
+                                                   "thorough": dict(depth=2, consts={"GenSet": '"full"'})})],
+        replays=[dict(mode="app", controls="", swap=False)]),
     "BIGSEQ": dict(
         mc=("MC_FeesBig", "MC_FeesBig.cfg", {"quick": {"Ks": "{64}"}, "thorough": {"Ks": "{64, 255}"}}),
         gens=[("Gen_BigSeq", "Gen_BigSeq.cfg", "bfs", {"quick": dict(depth=1, consts={}), "thorough": dict(depth=1, consts={})})],
@@ -151,7 +158,7 @@ PROPS = {
                 rule="every grid point (amount x fee-entry list) is one packet through the real application; non-trivial = the payload carries a fee action that parses; distinct = distinct abstract input"),
     "C05": dict(families=["REQ"], groups=["ack", "req"], level="model_checking", exhaustive=True,
                 rule="every grid point (protocol id x attribute type x attribute values x pre-action) is one packet, executed once with recording wrappers around the real bridge servers and once through the simapp wiring; non-trivial = a successful transfer (request compared) or a mismatched/unrouted payload (must be refused); distinct = distinct abstract input x wiring"),
-    "C08": dict(families=["PAUSE"], groups=["ack", "pause"], level="model_checking",
+    "C08": dict(families=["PAUSE", "BATCH"], groups=["ack", "pause"], level="model_checking",
                 rule="non-trivial = a transfer with a parseable payload received while some protocol/destination is paused, or a pause/unpause message; distinct = distinct (pre-state, input)"),
     "C09": dict(families=["PAUSE"], groups=["ack", "pause"], level="model_checking",
                 rule="non-trivial = a transfer with a parseable payload received while some action is paused, or a pause/unpause-action message; distinct = distinct (pre-state, input)"),
